@@ -113,10 +113,9 @@ PINS = {
            [(DU, "DummyDev", "_write"), (DU, "DummyDev", "_thread_recv")],
     "C18": _SERIALDEV,
     "C19": _REC + [(DEV, "Device", "__init__"), (DEV, "Device", "channel_get"), (DEV, "DeviceChannel", "__init__")],
-    "C20": _REASM + _RECV + [(PA, "Parser", "__init__"), (PR, "ParseRecv", "__init__")] + _REQ +
-           [(PA, "Parser", f) for f in ("frame_is_ack", "frame_is_stream", "frame_ack_decode", "frame_cmninfo_decode",
-                                        "frame_chinfo_decode", "frame_stream_decode")] +
-           [(PR, "ParseRecv", f) for f in ("frame_cmninfo_encode", "frame_chinfo_encode", "frame_ack_encode", "frame_stream_encode")],
+    "C20": _REASM + _RECV + [(PA, "Parser", "__init__"), (PR, "ParseRecv", "__init__")] + _REQ + _INFO[:6] + _STREAMENC + _STREAMDEC +
+           [(PA, "Parser", f) for f in ("frame", "frame_is_ack", "frame_is_stream")] +
+           [(PR, "ParseRecv", f) for f in ("_recv_cb_handle", "_cmninfo_data_encode", "_chinfo_data_encode")],
 }
 
 
